@@ -140,14 +140,16 @@ def spec_name(r):
 
 
 def run_schedule(app, W, rnames, plan, first, baseline, repo):
-    """controlled execution; returns the trace record (without tid)"""
+    """controlled execution; returns the trace record (without tid).  `app` may be a list of applications living in the same
+    process: thread i then talks to app[i % len(app)] (request identifiers are unique within the PROCESS)"""
     del W.events[:]
     S = sched.Scheduler(repo, plan)
     jobs = {}
+    apps = app if isinstance(app, list) else [app]
     for i, r in enumerate(rnames, 1):
         def job(i=i, r=r):
             W.tl.p = i
-            return do_request(app, r)
+            return do_request(apps[i % len(apps)], r)
         jobs[i] = job
     results = S.run(jobs, first)
     ev = [dict(e) for e in W.events]
@@ -223,6 +225,24 @@ def check(run):
             rec['_kind'] = 'single-preemption %s|%s@%d' % (x, y, k)
             traces.append(rec)
             npre += 1
+    # cold applications: the FIRST requests an application ever serves, preempted at every line
+    ncold = 0
+    for x, y in [('a', 'nf'), ('nf', 'a'), ('a', 'na'), ('c', 'nf')] if quick else [(x_, y_) for x_ in ('a', 'c', 'nf', 'na', 'boom1') for y_ in ('a', 'nf', 'na', 'dna')]:
+        rec, total, counts = run_schedule(build(W), W, [x], lambda t, n, live: t, 1, baseline, repo)
+        for k in range(1, counts[1] + 1):
+            def plan(t, n, live, k=k):
+                if t == 1 and n == k and 2 in live:
+                    return 2
+                if n == -1:
+                    return live[0]
+                return t
+            rec, total, counts2 = run_schedule(build(W), W, [x, y], plan, 1, baseline, repo)
+            tid += 1
+            rec['tid'] = tid
+            rec['_kind'] = 'single-preemption on a fresh application %s|%s@%d' % (x, y, k)
+            traces.append(rec)
+            ncold += 1
+    app2 = build(W)          # a second application in the same process
     nmulti = 0
     for _ in range(150 if quick else 4000):
         n = rng.choice([3, 4])
@@ -236,10 +256,10 @@ def check(run):
             if prng.random() < 0.08 and len(live) > 1:
                 return prng.choice([z for z in live if z != t])
             return t
-        rec, total, counts = run_schedule(app, W, rn, plan, 1, baseline, repo)
+        rec, total, counts = run_schedule([app, app2] if _ % 2 else app, W, rn, plan, 1, baseline, repo)
         tid += 1
         rec['tid'] = tid
-        rec['_kind'] = 'random multi-preemption'
+        rec['_kind'] = 'random multi-preemption' + (' (two applications)' if _ % 2 else '')
         traces.append(rec)
         nmulti += 1
     # behaviours of Threads.tla generated by TLC, replayed at label granularity (many switches between 3 threads)
@@ -289,7 +309,7 @@ def check(run):
                     chunk = []
     finally:
         sys.setswitchinterval(old_si)
-    run.notes['schedules'] = {'single_preemption': npre, 'random_multi': nmulti, 'tlc_behaviours_replayed': ntlc,
+    run.notes['schedules'] = {'single_preemption': npre, 'random_multi': nmulti, 'tlc_behaviours_replayed': ntlc, 'fresh_application_schedules': ncold,
                               'switches_in_replayed_behaviours': ntlc_switches, 'stress_chunks': nstress, 'ordered_pairs': len(pairs)}
     acc, rej = tracecheck.validate(run, 'Threads_Trace', spec('Threads_Trace.tla'), cfgpath('Threads_Trace.cfg'),
                                    cfgpath('Threads_Trace_diag.cfg'),
